@@ -289,7 +289,7 @@ impl Property for C18 {
         "case = generated prelude + one of 10 generic signatures {identity T->T, T->T[], T[]->T, (K,V)->K, (K,V)->V, table<K,V>->K, table<K,V>->V, T?->T, (fun():T)->T, T->fun():T} declared as local/global/assigned function + argument types X (,Y) from the annotation grammar supplied as declared variables (`---@type X` `local arg`); judged: the inferred type of `local r = f(arg)` equals (canonical form, aliases expanded) the declared return type with the parameters replaced by the argument types, computed by the harness on its own AST and materialised through `---@type`; a literal argument may be kept or widened to its base type; for `T?` the parameter may bind the argument type with or without nil. non-trivial = the argument type is a union, optional, table, record, tuple, nested array or literal".into()
     }
     fn cases(&self, tier: Tier) -> u32 {
-        tier.pick(100_000, 2_000_000)
+        tier.pick(300_000, 2_000_000)
     }
     fn strategy(&self, _tier: Tier) -> BoxedStrategy<Case> {
         let p = Profile { unknown: false, max_depth: 3, ..Profile::full() };
